@@ -485,6 +485,73 @@ def variant_texts(F, eng, self_ty, trait):
     return out
 
 
+def check_doy_paths(chk, rule, inst, construct, RD, finals, T, doy_val):
+    """%j formats: every path must reach maybe_from_gregorian(year run, 1, 1, 0, 0, 0, 0, UTC) once and return that epoch
+    + (doy - 1) days + the time of day written (hours, minutes, seconds, nanoseconds of their digit runs)."""
+    from .c10 import ok_epoch, is_err
+    from ..lin import implies as _implies
+    eng, D = RD.eng, RD.D
+    problems = []
+    nok = 0
+    for st in finals:
+        if st.end != "return":
+            problems.append("path ends in %s: %s" % (st.end, [e["msg"][:60] for e in st.events][-1:]))
+            continue
+        calls = recs(st, "mfg")
+        if len(calls) != 1:
+            lex = [t for t in st.trace if isinstance(t, tuple) and t and t[0] == "lexical-err"]
+            problems.append("rejected before the constructor (%d calls)%s" % (len(calls), " " + repr(lex[-1]) if lex else ""))
+            continue
+        a, res = calls[0]
+        want = [T.vals.get(0), Lin.const(1), Lin.const(1), Lin.const(0), Lin.const(0), Lin.const(0), Lin.const(0)]
+        for k in range(7):
+            got = a[k]
+            if not (isinstance(got, Int) and want[k] is not None and (got.lin.key() == want[k].key() or _implies(st.cons, got.lin - want[k], "==", st.bnd))):
+                problems.append("start-of-year argument %d is %r" % (k, got))
+        if scale_name(eng, st, a[7]) != "UTC":
+            problems.append("scale argument is %s" % scale_name(eng, st, a[7]))
+        if is_err(eng, st):
+            nok += 1
+            continue
+        ep = ok_epoch(eng, st)
+        r = res
+        if isinstance(r, SymEnum) and r.name in st.enum_ref:
+            r = st.enum_ref[r.name]
+        base = r.fs[0] if isinstance(r, Enum) and r.fs else None
+        prods = recs(st, "f64*unit")
+        if ep is None or base is None or len(prods) != 1:
+            problems.append("result is not Ok(start of year + one float product + ...): %d product(s)" % len(prods))
+            continue
+        (pa, P) = prods[0]
+        t = pa[0].t if isinstance(pa[0], Flt) else None
+        okd = t is not None and t[0] == "op" and t[1] == "Sub" and t[3] == ("c", 1.0) and t[2][0] == "i2f" and \
+            (t[2][2].key() == doy_val.key() or _implies(st.cons, t[2][2] - doy_val, "==", st.bnd)) and \
+            isinstance(pa[1], Enum) and eng.types[pa[1].tid]["variants"][pa[1].vi]["name"] == "Day"
+        if not okd:
+            problems.append("day offset is %r, expected (day-of-year run - 1.0) * Unit::Day" % (t,))
+        el = Lin.const(0)
+        for k, f in ((3, "Hour"), (4, "Minute"), (5, "Second")):
+            el = el + (T.vals[k].scale(oracle_unit_ns(f)) if k in T.vals else Lin.const(0))
+        if "frac" in T.vals:
+            v, nn = T.vals["frac"]
+            el = el + v.scale(10 ** (9 - nn))
+        elif 6 in T.vals:
+            el = el + T.vals[6]
+        Tr, Tb, Tp = D.total(ep.fs[0]), D.total(base.fs[0]), D.total(P)
+        st2 = st.clone()
+        D.close(st2, [Tr, Tb, Tp])
+        if not D.implies_eq(st2, Tr, Tb + Tp + el):
+            problems.append("returned instant is not start of year + day offset + the time of day written")
+        nok += 1
+    ok = not problems and nok >= 1
+    chk.ob(rule, inst, construct, ok, "reader interpreted on the template (%d path(s))" % len(finals), detail=None if ok else {"problems": sorted(set(problems))[:5]})
+
+
+def oracle_unit_ns(name):
+    from .. import oracle as _o
+    return _o.UNIT_NS[name]
+
+
 def r7_parse_agreement(chk, F, R):
     """The format-driven reader interpreted on what the formatter renders (template-string domain of C10): for UTC epochs and
     the formats with the full date and time and no optional token, Format::parse(format, render(format, e)) must reach
@@ -505,7 +572,7 @@ def r7_parse_agreement(chk, F, R):
     chk.ob(rule, "Weekday/MonthName", "names-read-off-the-code(7+7+12+12)", (len(wd_short), len(wd_long), len(mn_short), len(mn_long)) == (7, 7, 12, 12),
            "E7 outputs per variant", detail={"weekday": wd_short, "month": mn_short})
     month_order = [v["name"] for v in RD.eng.types[RD.eng.find_tid("month::MonthName")]["variants"]]
-    extra_formats = ["%Y-%m-%d %H:%M:%S", "%d/%m/%Y %H:%M:%S.%f", "%H:%M:%S %Y-%m-%d"]
+    extra_formats = ["%Y-%m-%d %H:%M:%S", "%d/%m/%Y %H:%M:%S.%f", "%H:%M:%S %Y-%m-%d", "%Y-%jT%H:%M:%S", "%j/%Y %H:%M:%S.%f"]
     n = 0
     for name, _ in jobs + [(f, "str") for f in extra_formats]:
         if _ is None:
@@ -532,6 +599,8 @@ def r7_parse_agreement(chk, F, R):
                     shape.append(("offset-field", g[1], g[3]))
                 elif g[0] == "field" and g[1] in ("weekday", "month_name") and g[2] in ("display", "lower_hex"):
                     shape.append(("name", g[1], g[2]))
+                elif g[0] == "field" and g[1] == "floor(doy)" and g[2] == "display" and g[3] == 3 and g[4]:
+                    shape.append(("doy",))
                 else:
                     shape.append(("?", repr(g)[:60]))
             shapes.add(tuple(shape))
@@ -581,19 +650,51 @@ def r7_parse_agreement(chk, F, R):
                     n += 1
                     check_gregorian_paths(chk, rule, "Format::parse[%s]" % name, "parse(render(e))->fields-in-role-order,UTC: %s" % trender(tmpl.els), RD, finals2, RD.T, "UTC")
                 continue
+            has_doy = any(x[0] == "doy" for x in shape)
             fmt_val = B2.format(items)
             RD.install()
             eng = RD.eng
             eng.reset()
             RD.T.n = 0
             st0 = _St()
-            tmpl = build_from_shape(shape, "UTC")(RD.T, st0)
+            doy_holder = {}
+            if has_doy:
+                # the three-digit day of year: a digit run of its own (1..366)
+                parts, cur = [], []
+                for x in shape:
+                    if x[0] == "doy":
+                        parts.append(cur)
+                        cur = []
+                    else:
+                        cur.append(x)
+                parts.append(cur)
+                T = RD.T
+                T.vals = {}
+                els = []
+                b0 = build_from_shape(parts[0], "UTC")
+                t0 = b0(T, st0)
+                v_keep = dict(T.vals)
+                els += list(T.els_of(t0) or [])
+                dd_, dv = T.digits("doy", 3)
+                eng.add_cons(st0, [(-dv + 1, "<="), (dv - 366, "<=")])
+                els += dd_
+                t1 = build_from_shape(parts[1], "UTC")(T, st0)
+                v_keep.update(T.vals)
+                els += list(T.els_of(t1) or [])
+                T.vals = v_keep
+                tmpl = T.mk(els)
+                doy_holder["v"] = dv
+            else:
+                tmpl = build_from_shape(shape, "UTC")(RD.T, st0)
             key = ("cell", "fmt-arg")
             st0.store[key] = fmt_val
             eng._pending_cells = []
             finals2 = eng.run(parse, args=[_Ref(key=key), _Ref(val=tmpl)], st=st0)
             RD.uninstall()
             n += 1
+            if has_doy:
+                check_doy_paths(chk, rule, "Format::parse[%s]" % name, "parse(render(e))->start-of-year+(doy-1)d+time-of-day: %s" % trender(tmpl.els), RD, finals2, RD.T, doy_holder["v"])
+                continue
             check_gregorian_paths(chk, rule, "Format::parse[%s]" % name, "parse(render(e))->fields-in-role-order,UTC: %s" % trender(tmpl.els), RD, finals2, RD.T, "UTC",
                                   sample=(n == 1))
     chk.floor(rule, "format/parse templates", n, 40)
